@@ -210,6 +210,12 @@ class Check:
             # every distinct key IS one evaluated comparison, so the evaluation count is at least that
             self.notes.append('evaluations raised from %d driver cases to %d compared sub-cases' % (self.evaluations, len(self.distinct)))
             self.evaluations = len(self.distinct)
+        try:
+            from . import impl as _impl
+            if _impl.RETRIED[0]:
+                self.hist['timeouts-retried-once-with-4x-limit'] = _impl.RETRIED[0]
+        except Exception:
+            pass
         findings = json.load(open(os.path.join(ROOT, 'known_findings.json')))
         
         known = [f for f in findings if f['property'] == self.pid and f['status'] == 'known']
